@@ -65,6 +65,35 @@ pub fn run(out: &mut Out, tier: &str, seed: u64) {
             }
         }
     }
+    // structured contexts / keys: zero bytes inside, unit vectors (an implementation that treats the
+    // context or key as a C string, or drops a byte position, shows up only here)
+    {
+        let mut ctxs: Vec<[u8; 8]> = vec![[0u8; 8], [1, 0, 0, 0, 0, 0, 0, 2], [0, 0, 0, 0, 0, 0, 0, 1], [0xff, 0, 0xff, 0, 0xff, 0, 0xff, 0]];
+        for k in 0..8 { let mut c = [0u8; 8]; c[k] = 0x80; ctxs.push(c); }
+        let mut keys: Vec<[u8; 32]> = vec![rng.arr()];
+        for k in [0usize, 15, 16, 31] { let mut kk = [0u8; 32]; kk[k] = 1; keys.push(kk); }
+        for key in &keys {
+            for ctx in &ctxs {
+                for id in [0u64, 0x0100_0000_0000_0001] {
+                    for len in [16usize, 31, 32, 33, 64] {
+                        let d = guard(|| {
+                            let mut sub = vec![0u8; len];
+                            crypto_kdf_derive_from_key(&mut sub, id, ctx, key).map(|_| sub)
+                        });
+                        let args = [i(len), b(&id.to_le_bytes()), b(ctx), b(key)];
+                        out.case("kdf.derive", &args, &d.clone().map(|v| vec![Tok::B(v)]), true);
+                        out.search_evaluations += 1;
+                        let s = sodium::kdf_derive(len, id, ctx, key);
+                        if d.clone().ok() != s {
+                            out.hit("kdf.derive.differs-from-libsodium", format!("structured context/key: len {} id {} ctx {} ", len, id, hx(ctx)),
+                                json!({"op": "kdf.derive", "len": len, "id": id.to_string(), "ctx": hx(ctx), "key": hx(key),
+                                       "dryoc": format!("{:?}", d.clone().map(|v| hx(&v))), "libsodium": s.as_ref().map(|v| hx(v))}));
+                        }
+                    }
+                }
+            }
+        }
+    }
     // distinctness: different ids / contexts / lengths give different subkeys
     {
         let key: [u8; 32] = rng.arr();
